@@ -409,6 +409,11 @@ func decimalValueFromString(numStr string, fracDigRequired uint8) (n Number, err
 	dx := strings.Index(s, ".")
 	var fracDig int
 	if dx >= 0 {
+		// A sign can only be the first character.  With the point taken
+		// out below, ".-1" would otherwise be read as "-1".
+		if dx+1 < len(s) && (s[dx+1] == '-' || s[dx+1] == '+') {
+			return n, fmt.Errorf("%s is not a valid decimal number", numStr)
+		}
 		fracDig = len(s) - 1 - dx
 		// remove first decimal, if dx > 1, will fail ParseInt below
 		s = s[:dx] + s[dx+1:]
